@@ -9,3 +9,14 @@ open Mud.C19
 #print axioms spawn_keys_distinct
 #print axioms spawn_prefix_stable
 #print axioms spawn_fresh_after
+#print axioms spawn_keys_nodup
+#print axioms constGen_length
+#print axioms constGen_identical
+#print axioms constGen_seeds_nodup
+#print axioms normalGen_length_le
+#print axioms normalGen_nonneg
+#print axioms normalGen_seeds_nodup
+#print axioms normalGen_prefix
+#print axioms boltzmannGen_length
+#print axioms boltzmannGen_ke
+#print axioms boltzmannGen_seeds_nodup
